@@ -32,7 +32,7 @@ def check(repo, col, tier):
     col.rule("R-C08-time", "padding / truncation / transposition of externals", 6)
     col.rule("R-C08-recs", "recs = concat([init, recordings[:n]]).T", 3)
     col.rule("R-C08-sibling", "stimulate/clamp and their data_ twins agree", 6)
-    cl = idx.compute_slots(repo, col, "R-C08-space")
+    cl = idx.compute_slots(repo, col, "R-C08-space", emit=("jaxedges", "rec_index", "external_inds"))
     _space_uses(repo, col, cl)
     _order(repo, col)
     _time(repo, col)
